@@ -263,6 +263,23 @@ def check(run):
         run.tie("extracted Coq scanner vs rebuilt _uscan.cc via utoken.scan: exact (type,start,len) lists", ncases,
                 [d for _n, d in dis])
     run.obligation("tiling oracle holds on every real output", nviol == 0, "%d violating texts" % nviol)
+    # concurrency probe: scan() releases the GIL, so concurrent calls must not interfere (a hit here needs a schedule,
+    # not a special text: replay = the texts that were scanned concurrently)
+    rounds = 400 if run.tier == "quick" else 5000
+    rc, out = core.run_impl("vt.harness.c10_threads", [str(rounds), str(run.seed)], src=src, timeout=1200)
+    tres = None
+    for ln in out.splitlines():
+        if ln.startswith("{"):
+            tres = json.loads(ln)
+    if rc != 0 or tres is None:
+        run.hit("threads:crash", "concurrent utoken.scan calls from 4 threads crashed or failed (rc=%s): %s" % (rc, out[-300:]),
+                {"threads": 4, "rounds": rounds, "output": out[-2000:]})
+    else:
+        run.coverage["concurrent_scans"] = tres["scans"]
+        for b in tres["bad"][:2]:
+            run.hit("threads:interference", "utoken.scan returned a different token list when 4 threads scanned concurrently "
+                    "(text of %d code points: expected %r..., got %r...)" % (len(b["text"]), b["expected"][:3], b["got"][:3]),
+                    {"threads": 4, "rounds": rounds, "case": b})
     run.coverage["exhaustive"] = False
     run.coverage["exhaustive_part"] = "; ".join("%s alphabet (%d lexemes) depth %d" % (a, len(al), d) for a, al, d in plan(run.tier))
     run.coverage["input_distribution"] = dist
@@ -273,6 +290,13 @@ def check(run):
 def replay(obj):
     src = core.snapshot()
     rep = obj["replay"]
+    if "threads" in rep:
+        rc, out = core.run_impl("vt.harness.c10_threads", [str(rep.get("rounds", 2000)), "0"], src=src, timeout=1200)
+        print(out[-1500:])
+        res = [json.loads(l) for l in out.splitlines() if l.startswith("{")]
+        badr = rc != 0 or not res or bool(res[-1]["bad"])
+        print("REPRODUCED" if badr else "not reproduced")
+        return 1 if badr else 0
     if "text" not in rep:
         print(json.dumps(rep, indent=1))
         return 1
